@@ -1,0 +1,46 @@
+//go:build verif
+
+package comdoc
+
+// Add-only test hooks for the /verif correspondence harness (property C18).
+// Thin exported wrappers around unexported functions and fields; no behaviour change.
+
+// VerifMakeFreeSectors calls makeFreeSectors.
+func (r *ComDoc) VerifMakeFreeSectors(count int, short bool) []SecID {
+	return r.makeFreeSectors(count, short)
+}
+
+// VerifAddStream calls addStream.
+func (r *ComDoc) VerifAddStream(contents []byte, short bool) (SecID, error) {
+	return r.addStream(contents, short)
+}
+
+// VerifFreeSectors calls freeSectors.
+func VerifFreeSectors(sat []SecID, sector SecID) {
+	freeSectors(sat, sector)
+}
+
+// VerifAllocSectorTables calls allocSectorTables.
+func (r *ComDoc) VerifAllocSectorTables() {
+	r.allocSectorTables()
+}
+
+// VerifLessDirEnt calls lessDirEnt.
+func VerifLessDirEnt(a, b *DirEnt) bool {
+	return lessDirEnt(a, b)
+}
+
+// VerifRootFiles returns a copy of rootFiles.
+func (r *ComDoc) VerifRootFiles() []int {
+	return append([]int(nil), r.rootFiles...)
+}
+
+// VerifMsatList returns a copy of msatList.
+func (r *ComDoc) VerifMsatList() []SecID {
+	return append([]SecID(nil), r.msatList...)
+}
+
+// VerifRootStorage returns the index of the root storage entry.
+func (r *ComDoc) VerifRootStorage() int {
+	return r.rootStorage
+}
